@@ -10,6 +10,8 @@ if [ ! -d "$W" ]; then git -C /repo worktree add -q --detach "$W" HEAD; fi
 git -C "$W" checkout -q -- . ; git -C "$W" clean -fdq
 rsync -a --delete --exclude replays --exclude evidence /verif/ "$V"/
 mkdir -p "$V/replays" "$V/evidence"
+# the copy is put back to the committed state of tracked files (half-made edits in /verif must not leak into a run)
+git -C "$V" checkout -q -- . 2>/dev/null || true
 ( cd "$W" && git apply "$p" ) || { echo "patch does not apply"; exit 2; }
 ids="$*"
 [ "$ids" = all ] && ids="C01 C02 C03 C04 C05 C06 C07 C08 C09 C10 C11 C12 C13 C14 C15 C16 C17 C18"
